@@ -1045,6 +1045,12 @@ func (r *RootMetadata) RemoveHook(stages []tuf.HookStage, hookName string) error
 	}
 
 	for _, stage := range stages {
+		if err := stage.IsValid(); err != nil {
+			return err
+		}
+	}
+
+	for _, stage := range stages {
 		hooks := []*Hook{}
 		for _, hook := range r.Hooks[stage] {
 			if hook.Name != hookName {
